@@ -126,6 +126,22 @@ def handle : List String → String
         | .error .short => "err 1"
         | .error .panic => "PANIC-MODEL"
     | _, _ => "bad-op"
+  -- SPAO option views: ParsePacketAuthOption + SPI/Algorithm/TimestampSN/Authenticator
+  | ["aopt", typ, hex] =>
+    match typ.toNat?, unhex hex with
+    | some t, some d =>
+      match parseAuthOpt ⟨t, d.length, d, 0, 0⟩ with
+      | .ok p => s!"ok {p.spi} {p.alg} {p.ts} {hexOf p.auth}"
+      | .error _ => "err"
+    | _, _ => "bad-op"
+  -- NewPacketAuthOption
+  | ["sopt", spi, alg, ts, auth] =>
+    match spi.toNat?, alg.toNat?, ts.toNat?, unhex auth with
+    | some spi, some alg, some ts, some auth =>
+      match encAuthOpt ⟨spi, alg, ts, auth⟩ with
+      | .ok o => s!"ok {o.typ} {o.dataLen} {hexOf o.data} {o.alignX} {o.alignY}"
+      | .error _ => "err"
+    | _, _, _, _ => "bad-op"
   | _ => "bad-op"
 
 end Driver.Wire
